@@ -136,6 +136,8 @@ func TestC05(t *testing.T) {
 	for _, p := range payloads {
 		alphaB = append(alphaB, wrReq(p))
 	}
+	gateB := newReplayGate(r, "C05", w.Root, w.Dir, true, 7, 1)
+	defer gateB.Stop()
 	runB := func(seq []Req, d Delivery) {
 		cw.reset()
 		m := newModel(w.Root, true)
@@ -155,6 +157,9 @@ func TestC05(t *testing.T) {
 		rep := map[string]any{"allow_write": true, "requests": seq, "delivery": d, "steps": res.Steps}
 		if res.Why != "" {
 			r.Violation("C05:on:"+res.WhySig, res.Why, rep)
+		}
+		if d == (Delivery{}) {
+			gateB.maybe(newModel(w.Root, true), full, res, "writing enabled", cw.reset)
 		}
 		// nothing outside /w may change, except a target named by a request
 		post := snapshotTree(w.Dir, filepath.Join(w.Root, "w"))
